@@ -79,6 +79,7 @@ func cmdRun(args []string) int {
 	trace := fs.Bool("trace", false, "trace")
 	initRun := fs.String("initrun", "", "extra package prefixes to initialise")
 	prof := fs.String("cpuprofile", "", "write cpu profile")
+	subst := fs.String("subst", "", "target=stub,target=stub function substitutions")
 	fs.Parse(args)
 	if *prof != "" {
 		f, _ := os.Create(*prof)
@@ -96,7 +97,11 @@ func cmdRun(args []string) int {
 			fmt.Fprintln(os.Stderr, err)
 			return 2
 		}
-		ov[filepath.Join(pkgDir(*pkg), filepath.Base(f))] = b
+		rel := f
+		if strings.HasPrefix(rel, verifRoot()+"/") {
+			rel = strings.TrimPrefix(rel, verifRoot()+"/")
+		}
+		ov[overlayDest(rel, *pkg)] = b
 	}
 	prog, err := interp.Load(interp.LoadConfig{Dir: repoRoot(), Patterns: []string{*pkg}, Overlay: ov, Env: goEnv()})
 	if err != nil {
@@ -107,6 +112,13 @@ func cmdRun(args []string) int {
 	hc := interp.HarnessConfig{Pkg: *pkg, Func: *fn, Workers: *workers, Budget: *budget, Wall: *wall, MaxPaths: *maxPaths, Solver: *solver, Trace: *trace, Params: parseParams(*params)}
 	if *initRun != "" {
 		hc.InitRun = strings.Split(*initRun, ",")
+	}
+	if *subst != "" {
+		hc.Subst = map[string]string{}
+		for _, kv := range strings.Split(*subst, ",") {
+			p := strings.SplitN(kv, "=", 2)
+			hc.Subst[p[0]] = p[1]
+		}
 	}
 	res := prog.Explore(hc)
 	printResult(&res)
